@@ -472,8 +472,14 @@ def report_violations(agg, max_reports=int(os.environ.get('VERIF_MAX_REPORTS', 4
                 nknown += 1
                 continue
             try:
-                r1 = run_plan_fresh(item['plan'])
-                path, v = write_replay(item['plan'], shrink.obs_class(v0['observable']), r1)
+                tgt = shrink.obs_class(v0['observable'])
+                for _ in range(3):
+                    # (a violation that stems from uninitialised memory or a
+                    # race need not show on every execution)
+                    r1 = run_plan_fresh(item['plan'])
+                    if any(shrink.obs_class(x['observable']) == tgt for x in r1['violations']):
+                        break
+                path, v = write_replay(item['plan'], tgt, r1)
             except Exception:
                 agg.errors.append('replay of unminimised plan failed:\n' + traceback.format_exc())
                 continue
@@ -594,7 +600,7 @@ def run_tier(tier, seed, workers, budget_s, n_worlds, n_exec, n_real, n_traced=0
                     else:
                         agg.add_world(r)
                     done_count += 1
-                if agg.violations and os.environ.get('VERIF_STOP_AT_FIRST'):
+                if len(agg.violations) >= 3 and os.environ.get('VERIF_STOP_AT_FIRST'):
                     # sensitivity self-test: the question is only whether
                     # anything is found; do not explore the rest
                     ex.shutdown(wait=True, cancel_futures=True)
@@ -657,7 +663,7 @@ EXPECTED_PROBES = ['srm_flip', 'skin_asymptote_flip', 'revisit', 'near_then_far'
                    'history_contains_raise', 'stale_file_longer_than_new', 'geo_all_ge2_not_all',
                    'multi_media_far_field', 'sweep_negative_increment', 'round_frequencies',
                    'int_typed_frequency', 'mid_model', 'model:fault_floor', 'model:round_floor',
-                   'model:tolerance_floor', 'model:regime_floor', 'model:twin_floor', 'model:option_floor', 'project_frequency', 'model:near_miss_junction',
+                   'model:tolerance_floor', 'model:regime_floor', 'model:twin_floor', 'model:option_floor', 'model:order_floor', 'model:minimal_model', 'project_frequency', 'model:near_miss_junction',
                    'model:near_miss_ground_contact']
 
 
